@@ -210,6 +210,7 @@ func stageStrip(content []byte) string {
 	defer cancel()
 	in := make(chan *vss.Signature, 1)
 	in <- &vss.Signature{Index: 1, RequestId: []byte{1}, Content: content, Signature: sig}
+	close(in) // nothing else will come: a skipped share makes the stage return without output
 	out, errc := dosnode.VerifRecoverSign(ctx, in, suite, g.pub, 1, 1, quiet)
 	go func() {
 		for range errc {
@@ -218,7 +219,7 @@ func stageStrip(content []byte) string {
 	select {
 	case v, ok := <-out:
 		if !ok {
-			return "closed"
+			return "skipped"
 		}
 		return "ok " + h.Hex(v.Content)
 	case <-time.After(10 * time.Second):
@@ -380,6 +381,9 @@ func exec(line string) (res h.Result) {
 		var o2 string
 		if len(keep) >= 20 && res.Impl != "ok "+h.Hex(keep[:len(keep)-20]) {
 			o2 = "strip: the reported result is not the signed message without its last 20 bytes"
+		}
+		if len(keep) < 20 && res.Impl != "skipped" {
+			o2 = "strip-short: a signed message shorter than an address produced " + res.Impl
 		}
 		res.Oracle = first(unchanged("content", c, keep), o2)
 	case "query":
@@ -558,6 +562,9 @@ func gen(tier string, rng *h.Rng, emit func(string)) {
 		case 3:
 			l = 4096
 		}
+		emit("strip " + h.Hex(rng.Bytes(l)))
+	}
+	for _, l := range []int{0, 1, 19} {
 		emit("strip " + h.Hex(rng.Bytes(l)))
 	}
 	// url queries
